@@ -6,7 +6,8 @@ from common import from_replay, to_replay  # noqa: F401
 PID = "C02"
 COQ_MODULE = "Prop_C02"
 THEOREMS = ["C02_guard_covers", "C02_acquired_is_covered", "C02_position_routes", "C02_closure_under_hold", "C02_guards_exclusive",
-            "C02_every_schedule_data_under_hold", "C02_every_schedule_exclusive"]
+            "C02_every_schedule_data_under_hold", "C02_every_schedule_exclusive", "C02_every_schedule_data_stable",
+            "C02_every_schedule_data_changes_only_under_exclusive_hold"]
 CASE_MODULES = ["Conc", "BMonitors", "WpMain"]
 CHECK_WITHOUT_PROOF = True
 SHRINK_GUARD = 0      # which of the booleans evaluated with the verdict certifies the theorem's hypotheses
